@@ -1,4 +1,198 @@
-import StrumModel
+import StrumProofs.C03
+/-
+C17 — Display renders fixed names like a `str` and placeholders like `format!`.
+
+`pad` (StrumModel/Fmt.lean) is the model of `Formatter::pad`; the rendering of placeholders is
+`format_args!`'s and is compared against `format!` inside the Rust driver (DESIGN.md §6 C17).
+-/
 namespace Strum
-theorem c17_placeholder : True := trivial
+
+/-- **A fixed name is formatted exactly as that `&str` would be**, whatever the variant's kind
+    (unit, tuple or named): `format!(spec, v) = pad(spec, canonical name)` for every spec. -/
+theorem fixed_name_padded (d : EnumDef) (hid : (d.variants.map (·.ident)).Nodup)
+    (v : Variant) (hv : v ∈ d.variants) (hen : v.disabled = false)
+    (ht : v.transparent = false) (hd : v.isDefault = false) (hb : NoPlaceholder (canonical d v))
+    (inner : FmtSpec → Bytes) (sp : FmtSpec) (o : ShowOut) (h : displayOut d v inner sp = .ok o) :
+    o = .text (pad sp (canonical d v)) := by
+  unfold displayOut at h
+  cases hg : genNames d .display with
+  | error e => simp [hg, Except.map] at h
+  | ok arms =>
+    simp only [hg, Except.map, Except.ok.injEq] at h
+    obtain ⟨a, ha, hl⟩ := genNames_lookup d .display arms hg hid v hv hen
+    simp only [armOf] at ha
+    rw [displayArm_fixed d v ht hd hb] at ha
+    cases ha
+    rw [← h, hl]; rfl
+
+/-- a default variant *with* `to_string` is a fixed name as well -/
+theorem displayArm_fixed_default (d : EnumDef) (v : Variant) (ht : v.transparent = false)
+    (hts : v.toStr.isSome = true) (hb : NoPlaceholder (canonical d v)) :
+    displayArm d v = .ok (.fixed (canonical d v)) := by
+  unfold displayArm
+  unfold NoPlaceholder at hb
+  rw [preferredName_eq_canonical]
+  have : v.toStr.isNone = false := by cases h : v.toStr <;> simp_all
+  simp only [ht, Bool.false_eq_true, ↓reduceIte, this, Bool.false_and, hb]
+  cases v.fields <;> simp
+
+/-! ### what `pad` does -/
+
+theorem pad_plain (s : Bytes) (fill : Bytes) (al : Option Align) (z : Bool) :
+    pad { fill := fill, align := al, width := none, prec := none, zero := z } s = s := rfl
+
+/-- the `0` flag and the fill never matter when no width is given -/
+theorem pad_no_width (sp : FmtSpec) (h : sp.width = none) (s : Bytes) :
+    pad sp s = truncTo sp.prec s := by
+  simp [pad, h]
+
+/-- the `0` flag is ignored for strings -/
+theorem pad_zero_irrelevant (sp : FmtSpec) (s : Bytes) : pad { sp with zero := true } s = pad { sp with zero := false } s := rfl
+
+theorem charCount_append (a b : Bytes) : charCount (a ++ b) = charCount a + charCount b := by
+  simp [charCount, List.filter_append]
+
+theorem charCount_repeat (k : Nat) (f : Bytes) : charCount (repeatBytes k f) = k * charCount f := by
+  induction k with
+  | zero => simp [repeatBytes, charCount]
+  | succ n ih => simp [repeatBytes, charCount_append, ih, Nat.succ_mul, Nat.add_comm]
+
+/-- truncation keeps at most `n` chars and is a prefix -/
+theorem takeChars_prefix (n : Nat) (s : Bytes) : ∃ t, s = takeChars n s ++ t := by
+  induction s generalizing n with
+  | nil => exact ⟨[], by simp [takeChars]⟩
+  | cons b bs ih =>
+    unfold takeChars
+    split
+    · cases n with
+      | zero => exact ⟨b :: bs, by simp⟩
+      | succ m => obtain ⟨t, ht⟩ := ih m; exact ⟨t, by simp [← ht]⟩
+    · obtain ⟨t, ht⟩ := ih n; exact ⟨t, by simp [← ht]⟩
+
+theorem charCount_cons (b : Nat) (bs : Bytes) :
+    charCount (b :: bs) = (if isCharStart b then 1 else 0) + charCount bs := by
+  unfold charCount
+  simp only [List.filter_cons]
+  split <;> simp <;> omega
+
+/-- truncation to `n` chars keeps exactly `min n (chars of s)` chars -/
+theorem takeChars_count (n : Nat) (s : Bytes) : charCount (takeChars n s) = min n (charCount s) := by
+  induction s generalizing n with
+  | nil => simp [takeChars, charCount]
+  | cons b bs ih =>
+    unfold takeChars
+    by_cases hb : isCharStart b = true
+    · simp only [hb, ↓reduceIte]
+      cases n with
+      | zero => simp [charCount]
+      | succ m => simp only [charCount_cons, hb, ↓reduceIte, ih]; omega
+    · simp only [hb, Bool.false_eq_true, ↓reduceIte, charCount_cons, ih]; omega
+
+/-- **Width.**  With a one-char fill the result has exactly `max width (chars after truncation)` chars. -/
+theorem pad_charCount (fill : Bytes) (al : Option Align) (w : Nat) (p : Option Nat) (z : Bool) (s : Bytes)
+    (hf : charCount fill = 1) :
+    charCount (pad ⟨fill, al, some w, p, z⟩ s) = max w (charCount (pad ⟨fill, al, none, p, z⟩ s)) := by
+  simp only [pad]
+  generalize truncTo p s = t
+  by_cases h : w ≤ charCount t
+  · simp only [h, ↓reduceIte]; omega
+  · simp only [h, ↓reduceIte]
+    cases al with
+    | none => simp only [charCount_append, charCount_repeat, hf]; omega
+    | some a =>
+      cases a <;> simp only [charCount_append, charCount_repeat, hf] <;> omega
+
+/-- the (truncated) name appears unchanged inside the padding: left / right / centre split of the fill -/
+theorem pad_contains (fill : Bytes) (al : Option Align) (w : Nat) (p : Option Nat) (z : Bool) (s : Bytes) :
+    ∃ l r, pad ⟨fill, al, some w, p, z⟩ s = repeatBytes l fill ++ pad ⟨fill, al, none, p, z⟩ s ++ repeatBytes r fill ∧
+      l + r = w - charCount (pad ⟨fill, al, none, p, z⟩ s) ∧
+      (al = none ∨ al = some .left → l = 0) ∧ (al = some .right → r = 0) ∧ (al = some .center → l = (l + r) / 2) := by
+  simp only [pad]
+  generalize truncTo p s = t
+  by_cases h : w ≤ charCount t
+  · refine ⟨0, 0, by simp [h, repeatBytes], by omega, by simp, by simp, by simp⟩
+  · simp only [h, ↓reduceIte]
+    cases al with
+    | none => exact ⟨0, w - charCount t, by simp [repeatBytes], by omega, by simp, by simp, by simp⟩
+    | some a =>
+      cases a with
+      | left => exact ⟨0, w - charCount t, by simp [repeatBytes], by omega, by simp, by simp, by simp⟩
+      | right => exact ⟨w - charCount t, 0, by simp [repeatBytes], by omega, by simp, by simp, by simp⟩
+      | center =>
+        refine ⟨(w - charCount t) / 2, (w - charCount t + 1) / 2, by simp, by omega, by simp, by simp, ?_⟩
+        intro _; omega
+
+/-! ### placeholders -/
+
+/-- named variant: the emitted `format_args!` binds exactly the declared fields that the literal uses,
+    in declaration order -/
+theorem named_args_cover (d : EnumDef) (v : Variant) (fs : List (Bytes × Option Bytes))
+    (hf : v.fields = .named fs) (lit : Bytes) (args : List Bytes)
+    (h : displayArm d v = .ok (.interp lit args)) :
+    ∃ used, captureFormatStrings (canonical d v) = .ok used ∧ lit = canonical d v ∧
+      args = (fs.map (·.1)).filter (fun f => used.contains f) := by
+  unfold displayArm at h
+  rw [preferredName_eq_canonical] at h
+  split at h
+  · split at h <;> cases h
+  · split at h
+    · split at h <;> cases h
+    · cases hc : captureFormatStrings (canonical d v) with
+      | error e => simp [hc] at h
+      | ok used =>
+        simp only [hc, hf] at h
+        refine ⟨used, rfl, ?_⟩
+        split at h
+        · split at h
+          · cases h
+          · cases h; exact ⟨rfl, rfl⟩
+        · cases h
+
+/-- tuple variant: the emitted call binds `field0 .. field(n-1)` positionally (all of them) -/
+theorem tuple_args_cover (d : EnumDef) (v : Variant) (n : Nat) (hf : v.fields = .tuple n)
+    (lit : Bytes) (args : List Bytes) (h : displayArm d v = .ok (.interp lit args)) :
+    lit = canonical d v ∧ args = positional n := by
+  unfold displayArm at h
+  rw [preferredName_eq_canonical] at h
+  split at h
+  · split at h <;> cases h
+  · split at h
+    · split at h <;> cases h
+    · cases hc : captureFormatStrings (canonical d v) with
+      | error e => simp [hc] at h
+      | ok used =>
+        simp only [hc, hf] at h
+        split at h
+        · cases h
+        · split at h
+          · cases h
+          · cases h; exact ⟨rfl, rfl⟩
+
+/-- placeholders on a unit variant are rejected (shared with C20) -/
+theorem unit_placeholder_rejected (d : EnumDef) (v : Variant) (hf : v.fields = .unit)
+    (ht : v.transparent = false) (hd : v.isDefault = false) (used : List Bytes)
+    (hc : captureFormatStrings (canonical d v) = .ok used) (hne : used ≠ []) :
+    displayArm d v = .error .unitPlaceholder := by
+  unfold displayArm
+  rw [preferredName_eq_canonical]
+  have : used.isEmpty = false := by cases used <;> simp_all
+  simp [ht, hd, hc, hf, this]
+
+/-- `{}` on a tuple variant is rejected -/
+theorem empty_brace_rejected (d : EnumDef) (v : Variant) (n : Nat) (hf : v.fields = .tuple n)
+    (ht : v.transparent = false) (hd : v.isDefault = false) (used : List Bytes)
+    (hc : captureFormatStrings (canonical d v) = .ok used) (he : [] ∈ used) :
+    displayArm d v = .error .emptyPlaceholder := by
+  unfold displayArm
+  rw [preferredName_eq_canonical]
+  have : used.any (·.isEmpty) = true := by
+    simp only [List.any_eq_true]; exact ⟨[], he, rfl⟩
+  simp [ht, hd, hc, hf, this]
+
+/-! non-vacuity / regression examples -/
+example : pad { width := some 5, align := some .center, fill := [42] } [97, 98] = [42, 97, 98, 42, 42] := by decide
+example : pad { width := some 4, prec := some 1 } [195, 169, 98] = [195, 169, 32, 32, 32] := by decide
+example : captureFormatStrings [120, 123, 48, 58, 62, 52, 125, 123, 123, 125, 125] = .ok [[48]] := by rfl
+example : NoPlaceholder [123, 123, 97, 125, 125] := by unfold NoPlaceholder; rfl
+
 end Strum
